@@ -14,13 +14,9 @@ Proof.
   destruct a, b, c, d, e, x, y; reflexivity.
 Qed.
 
-(* the one bias class whose label and data functions list their blocks in different orders *)
-Definition bias_order_ok (b : bflags) : bool :=
-  match bf_kind b with BAlb => negb (bf_grad b && bf_centers b) | _ => true end.
-
-Lemma bias_cols : forall b, bias_order_ok b = true -> map bcol_src (bias_label b) = bias_data b.
+Lemma bias_cols : forall b, map bcol_src (bias_label b) = bias_data b.
 Proof.
-  intros [id k vs e c cc ck aw cp g] Hok. unfold bias_order_ok in Hok. cbn [bf_kind bf_grad bf_centers] in Hok.
+  intros [id k vs e c cc ck aw cp g].
   unfold bias_label, bias_data, base_label, base_data, cm_label, cm_data, km_label, km_data.
   cbn [bf_id bf_kind bf_vars bf_energy bf_centers bf_chg_centers bf_chg_k bf_acc_work bf_coupling bf_grad].
   destruct k; rewrite ?map_app;
@@ -28,8 +24,6 @@ Proof.
     cbn [map app andb]; rewrite ?map_map, ?app_nil_r; try reflexivity; try discriminate;
     try (destruct vs; reflexivity).
 Qed.
-
-Definition cfg_ok (c : config) : bool := forallb bias_order_ok (c_biases c).
 
 Lemma flat_map_map_eq {A B C} (f : A -> list B) (g : A -> list C) (h : A -> B -> C) (l : list A) :
   (forall a, In a l -> map (h a) (f a) = g a) ->
@@ -39,12 +33,12 @@ Proof.
   rewrite H by (left; reflexivity). f_equal. apply IH. intros a' Ha'. apply H. right. exact Ha'.
 Qed.
 
-Lemma data_eq_expected : forall c, cfg_ok c = true -> data_of c = expected_of c.
+Lemma data_eq_expected : forall c, data_of c = expected_of c.
 Proof.
-  intros c Hok. unfold data_of, expected_of. f_equal.
+  intros c. unfold data_of, expected_of. f_equal.
   - symmetry. apply flat_map_map_eq. intros f _. apply var_cols.
   - symmetry. apply (flat_map_map_eq bias_label bias_data (fun _ => bcol_src)).
-    intros b Hb. apply bias_cols. unfold cfg_ok in Hok. rewrite forallb_forall in Hok. apply Hok. exact Hb.
+    intros b _. apply bias_cols.
 Qed.
 
 Lemma expected_length : forall c, length (expected_of c) = length (labels_of c).
@@ -77,10 +71,6 @@ Proof.
   - destruct x as [cols m|it f]; rewrite IH; tauto.
 Qed.
 
-(* configurations that events bring in *)
-Definition ev_ok (e : tevent) : bool :=
-  match e with TConfig c | TScriptSet c => cfg_ok c | _ => true end.
-
 Definition is_label (x : tline) : bool := match x with LLabel _ _ => true | _ => false end.
 
 Lemma lines_ok_split : forall l cur pre it fields post,
@@ -105,11 +95,6 @@ Proof.
         -- right. exists (LData it' f :: pre1), cols', pre2. subst pre. cbn [app]. auto.
 Qed.
 
-(* events after which the label flag is known to be raised when the columns changed.  In the code as it
-   stands a flag switched through the script interface does not call config_changed(). *)
-Definition ev_safe (e : tevent) : bool :=
-  match e with TConfig c => cfg_ok c | TScriptSet _ => false | _ => true end.
-
 Local Open Scope Z_scope.
 
 Lemma traj_run_app : forall evs1 evs2 s,
@@ -124,17 +109,15 @@ Proof.
 Qed.
 
 Lemma traj_lines_inv : forall evs s cur,
-  forallb ev_safe evs = true -> cfg_ok (t_cfg s) = true ->
   (t_labels s = true \/ cur = Some (expected_of (t_cfg s))) ->
   lines_ok cur (snd (traj_run s evs)).
 Proof.
-  induction evs as [|e evs IH]; intros s cur Hev Hcfg Hinv; cbn [traj_run snd]; [exact I|].
-  cbn [forallb] in Hev. apply andb_true_iff in Hev. destruct Hev as [He Hev].
+  induction evs as [|e evs IH]; intros s cur Hinv; cbn [traj_run snd]; [exact I|].
   destruct (traj_event s e) as [s1 l1] eqn:E1.
   specialize (IH s1).
   destruct (traj_run s1 evs) as [s2 l2] eqn:E2. cbn [snd] in *.
   apply lines_ok_app.
-  destruct e as [it|c|c|f|it0]; cbn [traj_event ev_safe] in *.
+  destruct e as [it|c|c|f|it0]; cbn [traj_event] in *.
   - (* TCalc *)
     unfold traj_calc in E1.
     destruct (t_freq s =? 0) eqn:Ef.
@@ -142,7 +125,7 @@ Proof.
     + destruct ((it - t_it_restart s =? 0) || t_labels s || (it mod (t_freq s * 1000) =? 0))%bool eqn:El.
       * inversion E1; subst s1 l1. cbn [app].
         destruct (it mod t_freq s =? 0).
-        -- cbn [app lines_ok last_label]. rewrite (data_eq_expected _ Hcfg).
+        -- cbn [app lines_ok last_label]. rewrite data_eq_expected.
            repeat split; try apply expected_length.
            apply IH; cbn [t_cfg t_labels]; auto.
         -- cbn [app lines_ok last_label]. repeat split; try apply expected_length.
@@ -151,25 +134,24 @@ Proof.
         destruct Hinv as [Hinv|Hinv]; [congruence|].
         inversion E1; subst s1 l1. cbn [app].
         destruct (it mod t_freq s =? 0).
-        -- cbn [lines_ok last_label]. rewrite (data_eq_expected _ Hcfg). split; [split; [assumption|exact I]|].
+        -- cbn [lines_ok last_label]. rewrite data_eq_expected. split; [split; [assumption|exact I]|].
            apply IH; cbn [t_cfg t_labels]; auto.
         -- cbn [lines_ok last_label]. split; [exact I|]. apply IH; cbn [t_cfg t_labels]; auto.
   - inversion E1; subst s1 l1. cbn [lines_ok last_label]. split; [exact I|]. apply IH; cbn [t_cfg t_labels]; auto.
-  - discriminate.
+  - inversion E1; subst s1 l1. cbn [lines_ok last_label]. split; [exact I|]. apply IH; cbn [t_cfg t_labels]; auto.
   - inversion E1; subst s1 l1. cbn [lines_ok last_label]. split; [exact I|]. apply IH; cbn [t_cfg t_labels]; auto.
   - inversion E1; subst s1 l1. cbn [lines_ok last_label]. split; [exact I|]. apply IH; cbn [t_cfg t_labels]; auto.
 Qed.
 
 (* the statement in the form of the property text *)
-Lemma columns_match_label_partial : forall freq c evs pre it fields post,
-  cfg_ok c = true -> forallb ev_safe evs = true ->
+Lemma columns_match_label : forall freq c evs pre it fields post,
   snd (traj_run (traj_init freq c) evs) = pre ++ LData it fields :: post ->
   exists pre1 cols pre2,
     pre = pre1 ++ LLabel cols fields :: pre2 /\ length fields = length cols /\
     forallb (fun x => negb (is_label x)) pre2 = true.
 Proof.
-  intros freq c evs pre it fields post Hc Hev Heq.
-  pose proof (traj_lines_inv evs (traj_init freq c) None Hev Hc (or_introl eq_refl)) as Hok.
+  intros freq c evs pre it fields post Heq.
+  pose proof (traj_lines_inv evs (traj_init freq c) None (or_introl eq_refl)) as Hok.
   destruct (lines_ok_split _ _ _ _ _ _ Hok Heq) as [[Habs _]|H]; [discriminate|exact H].
 Qed.
 
@@ -263,75 +245,248 @@ Qed.
 
 Local Close Scope Z_scope.
 
+
 (* =================================================================================================
-   witnesses on a computable carrier (exact rationals; the square root slot is the identity, so the
-   "stddev" field of a running-average line is not used in witnesses, the variance field is)
+   B, C. velocity and running average over R
    ================================================================================================= *)
 From CV Require Import C19.OutputSpec.
-
-Definition Qltb (a b : Q) : bool := match Qcompare a b with Lt => true | _ => false end.
-Definition Qleb (a b : Q) : bool := match Qcompare a b with Gt => false | _ => true end.
-Definition Qops : NumOps Q :=
-  mkNumOps Q 0%Q 1%Q (fun a b => Qred (a + b)) (fun a b => Qred (a - b)) (fun a b => Qred (a * b))
-           (fun a b => Qred (a / b)) (fun a => Qred (- a))
-           (fun a => a) (fun a => a) (fun a => a) (fun a => a) (fun a => a) (fun a => a)
-           (fun a _ => a) (fun a _ => a) inject_Z Qfloor Qltb Qleb Qeq_bool.
 
 (* steps 0,1,2,.. with the given values *)
 Fixpoint hist_from {A} (t : nat) (xs : list A) : list (nat * A) :=
   match xs with [] => [] | x :: r => (t, x) :: hist_from (S t) r end.
 Definition hist {A} (xs : list A) : list (nat * A) := hist_from 0 xs.
 
-Section Witnesses.
-  Local Open Scope Q_scope.
-  Definition w_xs : list Q := [1; 2; 4; 8; 16].
+Lemma div_succ : forall s u, (1 <= s)%nat ->
+  ((S u) mod s = 0 -> (S u) / s = S (u / s) /\ S u = (S (u / s)) * s)%nat /\
+  ((S u) mod s <> 0 -> (S u) / s = u / s)%nat.
+Proof.
+  intros s u Hs.
+  pose proof (Nat.div_mod_eq (S u) s) as H1. pose proof (Nat.div_mod_eq u s) as H2.
+  pose proof (Nat.mod_upper_bound (S u) s ltac:(lia)) as H3. pose proof (Nat.mod_upper_bound u s ltac:(lia)) as H4.
+  split; intros H.
+  - rewrite H in H1. assert (Hq : (S u / s = S (u / s))%nat) by nia. split; [exact Hq|]. rewrite <- Hq. lia.
+  - nia.
+Qed.
 
-  (* window 3, stride 1: the line of step 4 reports (16+8+4+2)/3 = 10, the mean of the last three values is 28/3 *)
-  Lemma w_runave_mean :
-    exists av var sd, In (4%nat, av, var, sd) (runave_run Qops 3 1 (r0 (T:=Q)) None (hist w_xs)) /\
-      av = 10 /\ win_mean Qops w_xs 3 1 4 = 28 # 3.
-  Proof. vm_compute. do 3 eexists. split; [right; left; reflexivity|]. split; reflexivity. Qed.
+Lemma mod_succ : forall s u, (1 <= s)%nat ->
+  ((S u) mod s = if (S (u mod s) <? s) then S (u mod s) else 0)%nat.
+Proof.
+  intros s u Hs.
+  pose proof (Nat.div_mod_eq u s) as H2. pose proof (Nat.mod_upper_bound u s ltac:(lia)) as H4.
+  destruct (S (u mod s) <? s)%nat eqn:E.
+  - apply Nat.ltb_lt in E. symmetry. apply (Nat.mod_unique _ _ (u / s)); lia.
+  - apply Nat.ltb_ge in E. symmetry. apply (Nat.mod_unique _ _ (S (u / s))); lia.
+Qed.
 
-  (* same run, the line of step 3 (the first one; its mean 14/3 is right): the variance field is
-     ((8-14/3)^2 + (8-4)^2 + (8-2)^2)/2 = 284/9, the sample variance of 2,4,8 is 28/3 *)
-  Lemma w_runave_var :
-    exists av var sd, In (3%nat, av, var, sd) (runave_run Qops 3 1 (r0 (T:=Q)) None (hist w_xs)) /\
-      av = win_mean Qops w_xs 3 1 3 /\ var = 284 # 9 /\ win_var Qops w_xs 3 1 3 = 28 # 3.
-  Proof. vm_compute. do 3 eexists. split; [left; reflexivity|]. repeat split; reflexivity. Qed.
-End Witnesses.
+Lemma firstn_cons_firstn {A} (k : nat) (a : A) (l : list A) : firstn k (a :: firstn k l) = firstn k (a :: l).
+Proof.
+  destruct k as [|k]; [reflexivity|]. cbn [firstn]. f_equal.
+  revert l. induction k as [|k IH]; intros l; [reflexivity|].
+  destruct l as [|b l]; [reflexivity|]. cbn [firstn]. f_equal. apply IH.
+Qed.
 
-(* a flag switched through the script interface changes the columns without a new label line *)
-Definition w_cfg1 : config := mkCfg [mkVF 0 true false false false false false false] [].
-Definition w_cfg2 : config := mkCfg [mkVF 0 true true false false false false false] [].
-Lemma w_script_set :
-  snd (traj_run (traj_init 1 w_cfg1) [TCalc 0; TScriptSet w_cfg2; TCalc 1]) =
-    [LLabel [CVal 0%Z] [SXrep 0%Z]; LData 0 [SXrep 0%Z]; LData 1 [SXrep 0%Z; SVrep 0%Z]].
-Proof. vm_compute. reflexivity. Qed.
+Section RealAnalysis.
+  Local Open Scope R_scope.
 
-(* alb: label order energy, coupling, gradient, centers; data order energy, coupling, centers, gradient *)
-Definition w_alb : bflags := mkBF 1 BAlb [0%Z] false true false false false false true.
-Lemma w_alb_order :
-  bias_label w_alb = [CGrad 1%Z 0%Z; CCenter 1%Z 0%Z] /\ bias_data w_alb = [SBC 1%Z 0%Z; SBGrad 1%Z 0%Z].
-Proof. vm_compute. split; reflexivity. Qed.
+  Lemma sumf_ext (f g : nat -> R) n : (forall j, (j < n)%nat -> f j = g j) -> sumf Rops f n = sumf Rops g n.
+  Proof.
+    induction n as [|n IH]; intros H; cbn [sumf]; [reflexivity|].
+    rewrite IH by (intros j Hj; apply H; lia). rewrite H by lia. reflexivity.
+  Qed.
 
-Section WitnessesAcf.
-  Local Open Scope Q_scope.
-  Definition w_ys : list (list Q) := [[1]; [2]; [4]; [8]; [16]; [32]].
-  Definition selfh (l : list (list Q)) := hist (map (fun v => (v, v)) l).
+  Lemma sumf_shift (g : nat -> R) n : sumf Rops g (S n) = g 0%nat + sumf Rops (fun j => g (S j)) n.
+  Proof.
+    induction n as [|n IH].
+    - cbn [sumf Rops nadd n0]. ring.
+    - change (sumf Rops g (S (S n))) with (sumf Rops g (S n) + g (S n)). rewrite IH.
+      change (sumf Rops (fun j => g (S j)) (S n)) with (sumf Rops (fun j => g (S j)) n + g (S n)). ring.
+  Qed.
 
-  (* corrFuncOffset 1, length 1, stride 1, normalised: the first row is labelled lag 1 and holds C(0)/C(0) = 1;
-     the correlation at lag 1 of 1,2,4,.. normalised by lag 0 is 1/2 *)
-  Lemma w_acf_offset :
-    fst (acf_model Qops AcfCoor true 1 1 1 (selfh w_ys)) = [(1%nat, 1); (2%nat, 1 # 4)].
-  Proof. vm_compute. reflexivity. Qed.
+  Lemma fold_sum (g : R -> R) (l : list R) (a : R) :
+    fold_left (fun acc xi => acc + g xi) l a = a + sumf Rops (fun j => g (nth j l 0)) (length l).
+  Proof.
+    revert a. induction l as [|h r IH]; intros a.
+    - cbn [fold_left length sumf Rops n0]. ring.
+    - cbn [fold_left length]. rewrite IH, sumf_shift. cbn [nth]. ring.
+  Qed.
 
-  (* correlation of variable i (values 1,1,1,..) with variable j (values 1,2,4,..), not normalised, length 1:
-     lag 0 row = <x_i^2> = 1 and lag 1 row = <x_j(t-1) x_j(t)>, neither involves the product x_i x_j *)
-  Definition w_cross := hist (map (fun v : list Q => ([1], v)) w_ys).
-  Lemma w_acf_cross :
-    fst (acf_model Qops AcfCoor false 1 1 0 w_cross) =
-      [(0%nat, 1); (1%nat, ndiv Qops (corr_sum Qops (vdot Qops) [] w_ys w_ys 1 2 4) 4)] /\
-    ndiv Qops (corr_sum Qops (vdot Qops) [] (repeat [1] 6) w_ys 1 2 4) 4 = 15 /\
-    ndiv Qops (corr_sum Qops (vdot Qops) [] w_ys w_ys 1 2 4) 4 = 170.
-  Proof. vm_compute. repeat split; reflexivity. Qed.
-End WitnessesAcf.
+  Lemma sumf_firstn (g : R -> R) (l : list R) k : (k <= length l)%nat ->
+    sumf Rops (fun j => g (nth j (firstn k l) 0)) (length (firstn k l)) = sumf Rops (fun j => g (nth j l 0)) k.
+  Proof.
+    intros Hk. rewrite firstn_length_le by exact Hk. apply sumf_ext. intros j Hj.
+    f_equal. rewrite <- (firstn_skipn k l) at 2. rewrite app_nth1; [reflexivity|]. rewrite firstn_length_le; assumption.
+  Qed.
+
+  (* ---- B. velocity ------------------------------------------------------------------------------ *)
+  Fixpoint vel_spec (dt xprev : R) (xs : list R) : list R :=
+    match xs with [] => [] | x :: r => (x - xprev) / dt :: vel_spec dt x r end.
+
+  Lemma vel_run_from : forall dt xs t0 s, 0 < dt ->
+    vel_run Rops dt s (Some t0) (hist_from (S t0) xs) = vel_spec dt (vs_xold s) xs.
+  Proof.
+    intros dt xs. induction xs as [|x xs IH]; intros t0 s Hdt; cbn [hist_from vel_run vel_spec]; [reflexivity|].
+    cbv zeta. unfold vel_step. cbn [after_prev]. replace (t0 <? S t0)%nat with true by (symmetry; apply Nat.ltb_lt; lia).
+    cbn [vs_vrep Rops nltb n0 n1 ndiv nmul nsub nofZ]. unfold nhalf. cbn [Rops ndiv n1 nofZ].
+    destruct (Rltb_true 0 dt) as [_ Hlt]. rewrite (Hlt Hdt).
+    f_equal.
+    - field. lra.
+    - rewrite IH by exact Hdt. reflexivity.
+  Qed.
+
+  Lemma vel_spec_nth : forall dt xs xprev i, (i < length xs)%nat ->
+    nth i (vel_spec dt xprev xs) 0 = (nth i xs 0 - nth i (xprev :: xs) 0) / dt.
+  Proof.
+    intros dt xs. induction xs as [|x xs IH]; intros xprev i Hi; cbn [length] in Hi; [lia|].
+    destruct i as [|i]; cbn [vel_spec nth]; [reflexivity|]. rewrite IH by lia. reflexivity.
+  Qed.
+
+  (* the value under "v_<name>" on the line of relative step t >= 1 is the backward difference *)
+  Lemma velocity_is_backward_difference : forall dt s xs t, 0 < dt -> (1 <= t < length xs)%nat ->
+    nth t (vel_run Rops dt s None (hist xs)) 0 = fd_velocity Rops dt xs t.
+  Proof.
+    intros dt s xs t Hdt Ht. destruct xs as [|x0 xs]; [cbn [length] in Ht; lia|].
+    unfold hist. cbn [hist_from vel_run]. destruct t as [|t]; [lia|]. cbn [nth].
+    cbv zeta. unfold vel_step. rewrite vel_run_from by exact Hdt. cbn [vs_xold].
+    cbn [length] in Ht. rewrite vel_spec_nth by lia.
+    unfold fd_velocity, xat. cbn [Rops ndiv nsub n0 nth]. replace (S t - 1)%nat with t by lia. reflexivity.
+  Qed.
+
+  (* a step computed twice (in-process run boundary) keeps the velocity of the first evaluation *)
+  Lemma velocity_kept_on_repeated_step : forall dt s t x,
+    vs_vrep (vel_step Rops dt s (Some (S t)) (S t) x) = vs_vrep s.
+  Proof.
+    intros. unfold vel_step. cbn [after_prev]. rewrite Nat.ltb_irrefl. reflexivity.
+  Qed.
+
+  (* ---- C. running average ------------------------------------------------------------------------ *)
+  Section Runave.
+    Variables (xs : list R) (L s it0 : nat).
+    Hypothesis HL : (1 <= L)%nat.
+    Hypothesis Hs : (1 <= s)%nat.
+
+    Notation x_ := (xat Rops xs).
+
+    (* the sampled values up to relative step t, newest first (the value of step 0 is not sampled) *)
+    Fixpoint samples (t : nat) : list R :=
+      match t with
+      | 0%nat => []
+      | S u => if ((S u) mod s =? 0)%nat then x_ (S u) :: samples u else samples u
+      end.
+
+    Lemma samples_spec : forall t,
+      length (samples t) = (t / s)%nat /\
+      forall j, (j < t / s)%nat -> nth j (samples t) 0 = x_ ((t / s) * s - j * s)%nat.
+    Proof.
+      induction t as [|u [IHl IHn]].
+      - cbn [samples length]. rewrite Nat.div_0_l by lia. split; [reflexivity|]. intros j Hj. lia.
+      - destruct (div_succ s u Hs) as [D1 D2]. cbn [samples].
+        destruct ((S u) mod s =? 0)%nat eqn:E.
+        + apply Nat.eqb_eq in E. destruct (D1 E) as [Hq Hm]. rewrite Hq. split.
+          * cbn [length]. rewrite IHl. reflexivity.
+          * intros j Hj. destruct j as [|j]; cbn [nth].
+            -- f_equal. lia.
+            -- rewrite IHn by lia. f_equal. nia.
+        + apply Nat.eqb_neq in E. rewrite (D2 E). split; [exact IHl|exact IHn].
+    Qed.
+
+    Definition rline_spec (t : nat) : nat * R * R * R :=
+      ((it0 + t)%nat, win_mean Rops xs L s t, win_var Rops xs L s t, sqrt (win_var Rops xs L s t)).
+
+    Definition emits (t : nat) : bool := ((t mod s =? 0) && (L <=? t / s))%nat.
+
+    Lemma runave_from : forall rest done t0 st,
+      xs = done ++ rest -> length done = t0 -> (1 <= t0)%nat ->
+      r_init st = true -> r_hist st = firstn (L - 1) (samples (t0 - 1)) ->
+      runave_run Rops L s it0 st (Some (t0 - 1)%nat) (hist_from t0 rest) =
+      flat_map (fun t => if emits t then [rline_spec t] else []) (seq t0 (length rest)).
+    Proof.
+      induction rest as [|x rest IH]; intros done t0 st Hxs Hlen Ht0 Hinit Hhist; cbn [hist_from runave_run length seq flat_map]; [reflexivity|].
+      assert (Hx : x = x_ t0).
+      { unfold xat. rewrite Hxs, app_nth2 by lia. replace (t0 - length done)%nat with 0%nat by lia. reflexivity. }
+      destruct t0 as [|u]; [lia|]. replace (S u - 1)%nat with u in * by lia.
+      destruct (samples_spec u) as [Sl Sn].
+      destruct (div_succ s u Hs) as [D1 D2].
+      unfold runave_step. rewrite Hinit. cbn [negb after_prev].
+      replace (u <? S u)%nat with true by (symmetry; apply Nat.ltb_lt; lia). rewrite andb_true_r.
+      unfold emits.
+      destruct ((S u) mod s =? 0)%nat eqn:E.
+      - apply Nat.eqb_eq in E. destruct (D1 E) as [Hq Hm]. cbn [andb].
+        assert (Hlen_h : length (r_hist st) = Nat.min (L - 1) (u / s)).
+        { rewrite Hhist, firstn_length, Sl. reflexivity. }
+        assert (Hcond : (L - 1 <=? length (r_hist st))%nat = (L <=? S u / s)%nat).
+        { rewrite Hlen_h, Hq. destruct (L <=? S (u / s))%nat eqn:E2.
+          - apply Nat.leb_le in E2. apply Nat.leb_le. lia.
+          - apply Nat.leb_gt in E2. apply Nat.leb_gt. lia. }
+        rewrite Hcond.
+        (* the state after this step *)
+        assert (Hnew : firstn (L - 1) (x :: r_hist st) = firstn (L - 1) (samples (S u))).
+        { rewrite Hhist, firstn_cons_firstn. cbn [samples]. rewrite E, Nat.eqb_refl, <- Hx. reflexivity. }
+        destruct (L <=? S u / s)%nat eqn:E2.
+        + apply Nat.leb_le in E2. rewrite Hq in E2.
+          cbn [app]. f_equal.
+          * (* the line *)
+            unfold rline_spec.
+            assert (Hk : (L - 1 <= length (samples u))%nat) by (rewrite Sl; lia).
+            assert (Hav : nmul Rops (sumT Rops (r_hist st) x) (ndiv Rops (n1 Rops) (ofnat Rops L)) = win_mean Rops xs L s (S u)).
+            { unfold sumT, win_mean. cbn [Rops nmul ndiv n1 nadd].
+              change (fold_left Rplus (r_hist st) x) with (fold_left (fun acc xi => acc + (fun y => y) xi) (r_hist st) x).
+              rewrite fold_sum, Hhist, (sumf_firstn (fun y => y)) by exact Hk.
+              replace L with (S (L - 1)) at 3 by lia. rewrite sumf_shift.
+              replace (S u - 0 * s)%nat with (S u) by lia. rewrite <- Hx.
+              rewrite (sumf_ext (fun j => nth j (samples u) 0) (fun j => x_ (S u - S j * s)%nat)).
+              2:{ intros j Hj. rewrite Sn by lia. f_equal. nia. }
+              unfold Rdiv. ring. }
+            rewrite Hav.
+            assert (Hvar : nmul Rops (fold_left (fun acc xi => nadd Rops acc (d2 Rops xi (win_mean Rops xs L s (S u)))) (r_hist st)
+                                         (nadd Rops (n0 Rops) (d2 Rops x (win_mean Rops xs L s (S u)))))
+                                (ndiv Rops (n1 Rops) (ofnat Rops (L - 1))) = win_var Rops xs L s (S u)).
+            { unfold win_var, d2, nsq. cbn [Rops nmul ndiv n1 nadd nsub n0].
+              set (m := win_mean Rops xs L s (S u)).
+              change (fold_left (fun acc xi => acc + (xi - m) * (xi - m)) (r_hist st) (0 + (x - m) * (x - m)))
+                with (fold_left (fun acc xi => acc + (fun y => (y - m) * (y - m)) xi) (r_hist st) (0 + (x - m) * (x - m))).
+              rewrite fold_sum, Hhist, (sumf_firstn (fun y => (y - m) * (y - m))) by exact Hk.
+              replace L with (S (L - 1)) at 3 by lia. rewrite sumf_shift.
+              replace (S u - 0 * s)%nat with (S u) by lia. rewrite <- Hx.
+              rewrite (sumf_ext (fun j => (nth j (samples u) 0 - m) * (nth j (samples u) 0 - m))
+                                (fun j => (x_ (S u - S j * s)%nat - m) * (x_ (S u - S j * s)%nat - m))).
+              2:{ intros j Hj. rewrite Sn by lia. replace (u / s * s - j * s)%nat with (S u - S j * s)%nat by nia. reflexivity. }
+              unfold Rdiv. ring. }
+            rewrite Hvar. reflexivity.
+          * change (Some (S u)) with (Some (S (S u) - 1)%nat).
+            apply (IH (done ++ [x]) (S (S u))); try lia.
+            -- rewrite <- app_assoc. exact Hxs.
+            -- rewrite app_length. cbn [length]. lia.
+            -- reflexivity.
+            -- cbn [r_hist]. replace (S (S u) - 1)%nat with (S u) by lia. exact Hnew.
+        + cbn [app].
+          change (Some (S u)) with (Some (S (S u) - 1)%nat).
+          apply (IH (done ++ [x]) (S (S u))); try lia.
+          -- rewrite <- app_assoc. exact Hxs.
+          -- rewrite app_length. cbn [length]. lia.
+          -- reflexivity.
+          -- cbn [r_hist]. replace (S (S u) - 1)%nat with (S u) by lia. exact Hnew.
+      - cbn [andb app].
+        change (Some (S u)) with (Some (S (S u) - 1)%nat).
+        apply (IH (done ++ [x]) (S (S u))); try lia.
+        + rewrite <- app_assoc. exact Hxs.
+        + rewrite app_length. cbn [length]. lia.
+        + exact Hinit.
+        + replace (S (S u) - 1)%nat with (S u) by lia. cbn [samples]. rewrite E. exact Hhist.
+    Qed.
+
+    (* the whole file: one line for every relative step t = m s, m >= L, carrying the absolute step, the mean
+       and the sample standard deviation of x(t), x(t-s), .., x(t-(L-1)s) *)
+    Lemma runave_lines :
+      runave_run Rops L s it0 (r0 (T:=R)) None (hist xs) =
+      flat_map (fun t => if emits t then [rline_spec t] else []) (seq 1 (length xs - 1)).
+    Proof.
+      destruct xs as [|x0 rest] eqn:Exs; [reflexivity|].
+      unfold hist. cbn [hist_from runave_run]. unfold runave_step at 1. cbn [r0 r_init negb app length].
+      replace (S (length rest) - 1)%nat with (length rest) by lia.
+      change (Some 0%nat) with (Some (1 - 1)%nat).
+      apply (runave_from rest [x0] 1%nat); try lia; try reflexivity.
+      - exact Exs.
+      - cbn [r_hist samples Nat.sub]. destruct (L - 1)%nat; reflexivity.
+    Qed.
+  End Runave.
+End RealAnalysis.
